@@ -66,6 +66,9 @@ func (g *G) genFlow(idx int, f *FlowSpec) {
 		}
 	}
 	g.resultNames = nil
+	// the idiom flows migrated from the legacy editor are full of: call a webhook and save it as a result,
+	// wait for a reply, then read @webhook / @legacy_extra (recreated from the result when the session is reloaded)
+	g.idiom = g.P.AllowWebhookAfter && nn >= 3 && f.Type != "messaging_background" && t.Chance("legacy_webhook_idiom", 1, 4)
 	nodes := make([]*nodeDraft, nn)
 	for i := range nodes {
 		nodes[i] = &nodeDraft{uuid: g.uuid(kNode)}
@@ -192,14 +195,20 @@ func (g *G) genNode(f *FlowSpec, fidx, nidx int, nd *nodeDraft, loc J) {
 	t := g.T
 	na := t.Weighted("nactions", 3, 4, 2, 1, 1)
 	enteredFlow := false
+	if g.idiom && nidx == 0 {
+		na = 1
+	}
 	for i := 0; i < na; i++ {
 		t.Begin("action")
+		if g.idiom && nidx == 0 {
+			g.forceKind, g.forceResult = "call_webhook", true
+		}
 		if enteredFlow && t.Chance("second_enter_flow", 1, 2) {
 			// a second enter_flow in the same node, often one that cannot be entered
 			g.forceKind = "enter_flow"
 		}
 		a := g.genAction(f, nd, loc)
-		g.forceKind = ""
+		g.forceKind, g.forceResult = "", false
 		if a != nil {
 			nd.actions = append(nd.actions, a)
 			if a["type"] == "enter_flow" {
@@ -217,6 +226,12 @@ func (g *G) genNode(f *FlowSpec, fidx, nidx int, nd *nodeDraft, loc J) {
 	if enteredFlow {
 		// subflow nodes route on the child run's status
 		kind = 3
+	} else if g.idiom && nidx == 0 {
+		kind = 0
+	} else if g.idiom && nidx == 1 {
+		kind = 1
+		g.forceWait = true
+		defer func() { g.forceWait = false }()
 	}
 	switch kind {
 	case 0:
@@ -404,7 +419,7 @@ func (g *G) genSwitch(f *FlowSpec, nd *nodeDraft, loc J, subflow bool) {
 	if t.Chance("resultname", 2, 3) {
 		r["result_name"] = g.newResultName()
 	}
-	if !subflow && t.Chance("wait", 1, 2) {
+	if !subflow && (t.Chance("wait", 1, 2) || g.forceWait) {
 		if w := g.genWait(f, cats); w != nil {
 			r["wait"] = w
 			nd.hasWait = true
